@@ -483,6 +483,118 @@ def judge_special(inp, obs, lr):
     return None
 
 
+# ---- oracle: the same coordinates in different packagings / dtypes --------------------------------
+# Coordinates that happen to be whole numbers (or dyadic) can be handed over as Python ints, nested lists, tuples,
+# integer / float32 arrays, non-contiguous or Fortran-ordered views: the point built from them is the point built from
+# the float64 array with the same values, in every model, for units and composites, and so are its distances.
+_HYP_INT = {1: [[1, 0], [-1, 0]],
+            2: [[1, 0, 0], [3, 2, 2], [3, -2, 2], [9, 8, 4], [9, 4, -8], [17, 12, 12], [-3, 2, 2]],
+            3: [[1, 0, 0, 0], [2, 1, 1, 1], [3, 2, 2, 0], [3, 0, -2, 2], [-2, 1, -1, 1], [7, 4, 4, 4]]}
+
+
+def gen_pack(rng, n):
+    for _ in range(n):
+        dim = rng.choice([1, 2, 2, 3])
+        m = rng.choice(MODELS)
+        k = rng.choice([0, 1, 2, 3])                        # 0: a unit object, else a composite of k points
+        cnt = max(k, 1)
+        pts = []
+        for _ in range(cnt):
+            if m == "hyperboloid":
+                pts.append(list(rng.choice(_HYP_INT[dim])))
+            elif m == "projective":
+                while True:
+                    v = [rng.randint(-6, 6) for _ in range(dim)]
+                    t = rng.choice([-1, 1]) * rng.randint(1, 9)
+                    if t * t > sum(x * x for x in v):
+                        break
+                pts.append([t] + v)
+            elif m == "halfspace":
+                pts.append([rng.randint(-5, 5) for _ in range(dim - 1)] + [rng.randint(1, 6)])
+            else:                                            # unit ball: dyadic coordinates (exact in float32), incl. the origin
+                while True:
+                    v = [rng.choice([0, 0, 0.5, -0.5, 0.25, -0.25, 0.75, -0.125]) for _ in range(dim)]
+                    if sum(x * x for x in v) < 0.95:
+                        break
+                if rng.random() < 0.3:
+                    v = [0] * dim
+                pts.append(v)
+        integral = all(float(x).is_integer() for p in pts for x in p)
+        packs = ["list", "tuple", "f32", "f64_view", "f64_fortran", "f64_readonly"] + (["int_list", "int64", "int32", "py_mixed"] if integral else [])
+        yield {"dim": dim, "model": m, "k": k, "pts": pts, "pack": rng.choice(packs)}
+
+
+def _package(inp):
+    pts = inp["pts"] if inp["k"] else inp["pts"][0]
+    ref = np.array(pts, dtype=float)
+    pk = inp["pack"]
+    if pk == "list":
+        return ref, [[float(x) for x in p] for p in pts] if inp["k"] else [float(x) for x in pts]
+    if pk == "tuple":
+        return ref, tuple(tuple(float(x) for x in p) for p in pts) if inp["k"] else tuple(float(x) for x in pts)
+    if pk == "int_list":
+        return ref, [[int(x) for x in p] for p in pts] if inp["k"] else [int(x) for x in pts]
+    if pk == "py_mixed":                                      # Python ints and floats side by side
+        mix = lambda p: [int(x) if i % 2 else float(x) for i, x in enumerate(p)]
+        return ref, [mix(p) for p in pts] if inp["k"] else mix(pts)
+    if pk == "int64":
+        return ref, np.array(pts, dtype=np.int64)
+    if pk == "int32":
+        return ref, np.array(pts, dtype=np.int32)
+    if pk == "f32":
+        return ref, np.array(pts, dtype=np.float32)
+    if pk == "f64_view":                                      # every other column of a wider buffer
+        big = np.zeros(ref.shape[:-1] + (2 * ref.shape[-1],)); big[..., ::2] = ref
+        return ref, big[..., ::2]
+    if pk == "f64_fortran":
+        return ref, np.asfortranarray(ref)
+    if pk == "f64_readonly":
+        r = ref.copy(); r.setflags(write=False)
+        return ref, r
+    raise ValueError(pk)
+
+
+def run_pack(inp):
+    ref, data = _package(inp)
+    snap = np.array(data, dtype=float).copy()
+    A = H.Point(data, model=inp["model"])
+    B = H.Point(ref.copy(), model=inp["model"])
+    out = {"worst": 0.0, "where": None}
+    f32 = inp["pack"] == "f32"                               # float32 data is processed in float32: compare loosely
+    for mm in MODELS:
+        ca, cb = np.array(A.coords(mm), dtype=float), np.array(B.coords(mm), dtype=float)
+        if ca.shape != cb.shape or not finite(ca):
+            return {"worst": float("inf"), "where": mm, "a": ca.tolist(), "b": cb.tolist()}
+        if mm in ("projective", "hyperboloid"):
+            ok = all(proj_close(x, y, 1e-3 if f32 else 1e-6) for x, y in zip(ca.reshape(-1, ca.shape[-1]), cb.reshape(-1, cb.shape[-1])))
+            e = 0.0 if ok else float("inf")
+        else:
+            e = err(ca, cb)
+            if f32:
+                e = 0.0 if e <= 1e-3 * (1 + float(np.max(np.abs(cb))) ** 2) else e
+        if e > out["worst"]:
+            out = {"worst": e, "where": mm, "a": ca.tolist(), "b": cb.tolist()}
+    o = H.Point(np.zeros(inp["dim"]), model="klein")
+    da, db = np.asarray(A.distance(o), dtype=float), np.asarray(B.distance(o), dtype=float)
+    if da.shape != db.shape or not finite(da) or err(da, db) > (1e-2 if f32 else 1e-6):
+        return {"worst": float("inf"), "where": "distance", "a": da.tolist(), "b": db.tolist()}
+    after = np.array(data, dtype=float)
+    if not all(proj_close(x, y, 1e-9) for x, y in zip(after.reshape(-1, after.shape[-1]), snap.reshape(-1, snap.shape[-1]))) \
+            if inp["model"] in ("projective", "hyperboloid") else not close(after, snap, 0):
+        return {"worst": float("inf"), "where": "caller data changed", "a": after.tolist(), "b": snap.tolist()}
+    return out
+
+
+def judge_pack(inp, obs, lr):
+    if "exc" in obs:
+        return {"expected": "a point from packaged coordinates", "observed": obs,
+                "tags": {"exc": obs["exc"], "pack": inp["pack"], "model": inp["model"]}}
+    if obs["worst"] > 1e-6:
+        return {"expected": "same point as from the float64 array with the same values", "observed": obs,
+                "tags": {"pack": inp["pack"], "model": inp["model"], "where": obs["where"]}}
+    return None
+
+
 CLAUSES = [
     Clause("coords_corr", "corr", gen_coords, run_coords, judge_coords, lean=lean_coords2,
            site="hyperbolic.Point.coords", budget={"quick": 150, "thorough": 20000},
@@ -504,4 +616,8 @@ CLAUSES = [
            budget={"quick": 120, "thorough": 4000},
            what="composites containing a special element (the half-space point at infinity, the origin, an ideal point, two equal points): "
                 "every other entry still equals its unit object's coordinates, round-trips, and has the right distance"),
+    Clause("packaging_oracle", "oracle", gen_pack, run_pack, judge_pack, site="hyperbolic.Point.__init__ / coords (packagings)",
+           budget={"quick": 200, "thorough": 6000},
+           what="whole-number / dyadic coordinates in every model handed over as Python ints, nested lists, tuples, int32/int64/float32 "
+                "arrays, strided, Fortran-ordered and read-only views: same point and distances as from the float64 array"),
 ]
